@@ -113,6 +113,11 @@ def gen_decl(rng, enc):
             'with-encoding')
 
 
+LABELS = {'latin-1': ['ISO_8859-1:1987', 'iso-ir-100', 'l1', 'IBM819', 'ISO-8859-1', 'cp819'], 'cp1251': ['windows-1251'],
+          'cp1252': ['windows-1252'], 'koi8-r': ['KOI8-R'], 'iso-8859-15': ['ISO_8859-15', 'latin-9', 'l9'],
+          'shift_jis': ['Shift_JIS', 'MS_Kanji', 'csShiftJIS'], 'utf-8': ['UTF-8', 'utf8', 'U8']}
+
+
 def gen_meta(rng, enc):
     k = rng.random()
     if k < .45:
@@ -129,7 +134,9 @@ def gen_meta(rng, enc):
         form = 'unquoted'
     else:
         form = 'quoted'
-    a2 = '%s=%s%s%scharset=%s%s' % (cn, q, typ, sep, enc, q)
+    # the charset under one of its registered labels (IANA names may contain ':', '_' and '.')
+    label = rng.choice(LABELS.get(enc, [enc]) + [enc, enc])
+    a2 = '%s=%s%s%scharset=%s%s' % (cn, q, typ, sep, label, q)
     order = rng.random() < .75
     attrs = (a1, a2) if order else (a2, a1)
     ws = rng.choice([' ', '  ', '\n ', ' '])
